@@ -229,7 +229,10 @@ def convert (p : PF) (s : Spec) (arg : Option Arg) : Option PF := do
   let start := p.length
   let (p, md, padded) ← match s.conv, arg with
     | '%', none => do let p ← PF.push p 37; pure (p, ({} : Misc), true)
-    | 'c', some (.int raw) => do let p ← PF.push p (UInt8.ofNat (raw % 256)); pure (p, {}, false)
+    | 'c', some (.int raw) =>
+      -- `%lc`: `pf_write_wc` encodes into a temporary and appends it clipped; `%c`: one pushed byte
+      if s.len = .l then do let p ← PF.concat p (wcBytes raw); pure (p, {}, false)
+      else do let p ← PF.push p (UInt8.ofNat (raw % 256)); pure (p, {}, false)
     | 's', some (.str str) => do let p ← writeS p s str; pure (p, {}, false)
     | 'd', some (.int raw) => do let (p, md) ← writeI p s raw; pure (p, md, false)
     | 'i', some (.int raw) => do let (p, md) ← writeI p s raw; pure (p, md, false)
